@@ -1166,3 +1166,25 @@ pub fn tiny_program(p: &mut Prng) -> String {
     };
     format!("pub fn main({sig}) -> {ret} {{\n    {body}\n}}\n")
 }
+
+/// Large circuits (10^5 .. 10^6 gates): several 64-bit multiplications / divisions. Exercises
+/// behaviour that depends on table sizes, capacities and thresholds inside the circuit builder.
+pub fn big_program(p: &mut Prng) -> String {
+    let ty = *p.pick(&["u64", "u64", "i64", "u32"]);
+    let n = p.range(2, 4) as usize;
+    let params: Vec<String> = (0..n).map(|i| format!("p{i}")).collect();
+    let sig = params.iter().map(|n| format!("{n}: {ty}")).collect::<Vec<_>>().join(", ");
+    let pick = |p: &mut Prng| params[p.usize_below(params.len())].clone();
+    // two size classes: ~10^5 gates, and several 10^5 gates (beyond typical table-size thresholds)
+    let heavy = if p.chance(1, 2) { p.range(10, 16) } else { p.range(4, 9) };
+    let mut terms = vec![];
+    for _ in 0..heavy {
+        let op = *p.pick(&["*", "/", "%", "/"]);
+        let a = pick(p);
+        let b = pick(p);
+        terms.push(if p.chance(1, 3) { format!("(({a} {op} {b}) {} {})", p.pick(&["/", "*", "%"]), pick(p)) } else { format!("({a} {op} {b})") });
+    }
+    let fold = *p.pick(&["^", "+", "&", "|"]);
+    let body = terms.join(&format!(" {fold} "));
+    format!("pub fn main({sig}) -> {ty} {{\n    {body}\n}}\n")
+}
